@@ -1116,7 +1116,11 @@ MUST_PROVE = (
 
 # matching sites that are neither discharged nor control-dependent on a test of their operands on the audited tree
 # (their safety rests on a caller's guard or a data-structure invariant; not claimed)
-MUST_PROVE_UNGUARDED = {}
+MUST_PROVE_UNGUARDED = {
+    # digits[read_index] in the first loop: read_index counts down from num_digits, which is <= MAX_DIGITS by the type's
+    # invariant (documented in Decimal::trim); `read_index != 0` only ends the loop, it does not bound the index
+    ("decimal::Decimal::left_shift", "BoundsCheck", r"<768\)$"): 1,
+}
 
 
 def r01_13(ctx, crates=("sonic_rs", "sonic_number"), floor=40):
